@@ -3,6 +3,7 @@ C16 — compositions are rung row for row and called call for call.
 -/
 import Wheatley.Lemmas.Outs
 import Wheatley.Lemmas.Gen
+import Wheatley.Lemmas.Cli
 namespace Wheatley.C16
 
 /-- **Row for row**: the `k`-th request to a composition generator yields the `k`-th payload row with
@@ -167,4 +168,19 @@ theorem rounds_carry_no_stale_calls (b : Bot) (isFirst : Bool) (c : Ctl) (starte
   simp only [hc]
   rw [snrFinish_calls _ _ (by cases started <;> exact hr)]
   cases started <;> simp [Bot.withCtl, Bot.resetGen, Bot.snrPrep, hleft]
+/-! ### The command line (`Model/Cli.lean`: `console_main`) -/
+
+/-- Wheatley calls the composition unless `--no-calls` was given. -/
+theorem cli_no_calls (c : Parse.Chars) (os : List Cli.Opt) (u : Option (List Char × List Char)) (cfg : Cli.Cfg)
+    (h : Cli.consoleMain c os u = .built cfg) :
+    cfg.callComps = !decide (Cli.Opt.noCalls ∈ os) :=
+  (Cli.main_built c os u cfg h).2.2.1
+
+/-- A composition and a custom start row together are refused, with that message. -/
+theorem cli_comp_with_start_row (c : Parse.Chars) (a : Cli.Args) (u : Option (List Char × List Char))
+    (ref s : List Char) (hc : a.comp = some ref) (hs : a.startRow = some s) :
+    Cli.createRowGenerator c a u = .error .exitCompStartRow := by
+  unfold Cli.createRowGenerator
+  simp [hc, hs]
+
 end Wheatley.C16
